@@ -197,7 +197,12 @@ func (h *Handler) HandleOpenFile(ctx *Context, path string) (fs.FileInfo, error)
 	if fi.Size() >= 0x200000 && fi.Size() <= 0x35000000 {
 		sectorSize, err := determineSectorSize(f)
 		if err != nil {
+			// signature area is always inside file of such size, so it's an I/O failure: going on with
+			// the default sector size would serve wrong sectors of an image which has another one
 			log.WarnContext(ctx, "Determine sector size failed", logutil.ErrorAttr(err))
+			h.HandleCloseFile(ctx)
+
+			return nil, err
 		}
 		if sectorSize > 0 && sectorSize != ctx.State.CDSectorSize {
 			log.InfoContext(ctx, "Sector size determined", slog.Int("size", sectorSize))
@@ -517,12 +522,10 @@ func determineSectorSize(f io.ReaderAt) (int, error) {
 	minMaxDifference := systemAreaSectors * (sectorSizes[len(sectorSizes)-1] - sectorSizes[0])
 	buf := make([]byte, minMaxDifference+len(magic1)+extraBytes+len(magic2))
 
-	n, err := f.ReadAt(buf, psxPrefixSize+systemAreaSectors*int64(sectorSizes[0]))
-	if err != nil {
+	// one ReadAt call is allowed to return less than requested
+	area := io.NewSectionReader(f, psxPrefixSize+systemAreaSectors*int64(sectorSizes[0]), int64(len(buf)))
+	if _, err := io.ReadFull(area, buf); err != nil {
 		return -1, fmt.Errorf("read failed: %w", err)
-	}
-	if n != len(buf) {
-		return -1, fmt.Errorf("read failed: expected %d bytes, got %d", len(buf), n)
 	}
 
 	for _, sectorSize := range sectorSizes {
